@@ -149,7 +149,7 @@ def run(ctx):
     ctx.cov["oracle_selfcheck_relative_error"] = w
     if w > 1e-5:
         raise runner.HarnessError("the reference Escobar-West distributions do not leave p(alpha|K,n) invariant (rel err %g): oracle is wrong" % w)
-    seeds = [ctx.sub(("dev", i)) for i in range(48 if quick else 800)]
+    seeds = [ctx.sub(("dev", i)) for i in range(48 if quick else 3000)]
     res = runner.pmap(device_task, seeds)
     tot = 0
     sig = set()
@@ -158,7 +158,7 @@ def run(ctx):
         sig |= out["sig"]
         for key, detail, rep in out["problems"]:
             ctx.violation(key, detail, {"world": "device", "case": rep, "key": key})
-    lseeds = [ctx.sub(("loop", i)) for i in range(160 if quick else 4000)]
+    lseeds = [ctx.sub(("loop", i)) for i in range(160 if quick else 8000)]
     lres = runner.pmap(loop_task, lseeds)
     calls = 0
     for out in lres:
